@@ -69,6 +69,7 @@ type Config struct {
 	fuel   bool
 	held   map[*Cell]*Term // ghost lockset: mutex cell -> BV2 mode (0 none, 1 read, 2 write)
 	done   bool
+	atomic int // >0: inside verifAtomic (visible ops run inline)
 }
 
 type Gor struct {
@@ -267,7 +268,7 @@ func (e *Engine) mergeKey(c *Config) string {
 		}
 		sb.WriteString("|")
 	}
-	fmt.Fprintf(&sb, "ph%d", c.phase)
+	fmt.Fprintf(&sb, "ph%d.a%d", c.phase, c.atomic)
 	if len(c.counts) > 0 {
 		ks := make([]string, 0, len(c.counts))
 		for k := range c.counts {
